@@ -63,16 +63,30 @@ def dist(cases):
     return d
 
 
+def late_option_cases(rng, tier):
+    """SNDTIMEO is changed while the connection exists and the queue is full: the next send honours the NEW value"""
+    out = []
+    for sty, rty in (("PUSH", "PULL"), ("DEALER", "ROUTER"), ("ROUTER", "DEALER")):
+        for tr in ("tcp", "inproc"):
+            out.append(["cancel tr=%s,sndtimeo=-1,sndhwm=%d,rcvhwm=2 %s %s fill;T%d;s7;R" % (tr, rng.choice([1, 3]), sty, rty, rng.choice([40, 120]))])
+    out.append(["cancel tr=tcp,sndtimeo=60,sndhwm=2,rcvhwm=2 PUSH PULL fill;T-1;c7:5;R;R"])
+    return out
+
+
 SPEC = {
     "components": [{"comp": "stack", "gen": gen, "label": "hwm", "shrink": False,
-                    "nontrivial": lambda c, i: any(l == "hwm=ok" for l in i), "dist": dist}],
+                    "nontrivial": lambda c, i: any(l == "hwm=ok" for l in i), "dist": dist},
+                   {"comp": "stack", "gen": late_option_cases, "label": "sndtimeo-changed-later", "shrink": False,
+                    "nontrivial": lambda c, i: any(l == "cancel=ok" for l in i), "dist": lambda cs: {"cases": len(cs)}}],
     "search": lambda rng, tier: [("stack", long_wait_cases() + gen(rng, "quick"), None, False)],
     "rule": "stack level: a sender (PUSH, DEALER, ROUTER mandatory) with SNDHWM 1..50 and SNDTIMEO in {-1, 0, 30..500 ms} sends numbered messages "
             "(1 KB..500 KB) to a receiver (RCVHWM 1..50) that does not read, over tcp/ipc/inproc: (A) recv() on the empty receiver honours "
             "RCVTIMEO (error class, not before the interval, at most 600 ms after it); (B) the first refused send honours SNDTIMEO the same way, "
             "a send with SNDTIMEO -1 stays blocked (600 ms; 31.5 s in the thorough tier) and completes once the receiver drains; the number "
             "accepted stays within 2*SNDHWM + SNDBATCH_COUNT + RCVHWM + read/kernel allowances; (C) the receiver then gets exactly the "
-            "accepted messages in order and never a refused one",
+            "accepted messages in order and never a refused one; (D) SNDTIMEO changed from -1 to 40/120 ms while the connection exists and its "
+            "queue is full: the next send returns within the new interval (PUSH does; DEALER and ROUTER keep the value their connection was "
+            "created with - known finding)",
     "assumptions": ["timing slack of 600 ms for a loaded host; kernel socket buffers are allowed 8 MiB",
                     "the decision functions of the model stand for the try_send / timed send / waiting send branches matched by pattern in "
                     "iface.rs, inproc/connection.rs, io_uring zmtp_handler.rs and anonymous_ingress.rs"],
